@@ -252,6 +252,19 @@ def line_scenarios():
                 pass
         return [decision_body(w, g, marks, 'd0'), assign], ['decision', 'assignment'], marks
     C.append(('line3:decision|rejected-assignment-to-a-stored-policy', [pol('a')], make_rejected_assignment))
+
+    def make_two_inquiries(w):
+        # one guard (one checker object) asked on two threads about two different inquiries; the stored policy compares a value of
+        # the inquiry with another value of the SAME inquiry.  The policy set never changes: each answer is a constant.
+        from vakt.checker import RulesChecker
+        g = Guard(w.st, RulesChecker())
+        q_owner = Inquiry(action='read', resource={'owner': 'bob'}, subject={'name': 'bob'})
+        q_other = Inquiry(action='read', resource={'owner': 'bob'}, subject={'name': 'mallory'})
+        return [lambda: g.is_allowed(q_owner), lambda: g.is_allowed(q_other)], ['decision=True', 'decision=False'], {}
+    from vakt.rules import Eq, Any
+    from vakt.rules.inquiry import SubjectMatch
+    own = Policy('own', actions=[Eq('read')], subjects=[Any()], resources=[{'owner': SubjectMatch('name')}], effect='allow')
+    C.append(('line3:decision|decision-about-another-inquiry (shared rules checker)', [own], make_two_inquiries))
     return C
 
 
@@ -331,6 +344,12 @@ def run_one(name, initial, make, preemptions, line_mode=False, random_switch=Non
         oks = [r for r in results if r[0] == 'ok']
         if len(oks) != 1:
             problems.append('concurrent adds of one uid: %d succeeded' % len(oks))
+    for i, k in enumerate(kinds):
+        if k.startswith('decision=') and results[i][0] == 'ok':
+            want = k == 'decision=True'
+            if results[i][1] is not want:
+                problems.append('decision %d answered %r; the policy set never changes and gives %r for this inquiry (the answer '
+                                'to the inquiry asked on the other thread?)' % (i, results[i][1], want))
     for i, k in enumerate(kinds):
         if k == 'decision' and results[i][0] == 'ok':
             a = results[i][1]
@@ -576,6 +595,7 @@ def run(ctx):
                  'meanwhile, two updates made one after the other by one thread, and - explored with the delay-bounded schedules at '
                  'the granularity of every source line of vakt - a refused assignment to a stored policy; linearizations respect the '
                  'real-time order of the mutation calls')
+    out.rule += '; one guard asked on two threads about two different inquiries over a policy that relates two values of the same inquiry (line granularity over all of vakt)'
     return out
 
 
